@@ -59,6 +59,17 @@ def _c26(template, keep_ext, in_type, name, n=1, x=0.5):
         return "template %r name=%r n=%r: resolves to %r, not inside %s" % (template, name, n, str(p1), CACHE)
     return None
 
+_EQV = [1, 1.0, True, 0, 0.0, -0.0, False, 2, 2.0]
+
+_AnyT = {}
+def _resolve_any(v):
+    """template out_{v} with an untyped input"""
+    import typing as ty
+    if "t" not in _AnyT:
+        _AnyT["t"] = shell.define("prog", inputs={"v": shell.arg(type=ty.Any, argstr="-v", position=1)},
+                                  outputs={"out": shell.outarg(type=File, path_template="out_{v}.txt", argstr="-o")}, name="AnyT")
+    return TP.template_update(_AnyT["t"](v=v), cache_dir=CACHE).get("out")
+
 def _okname(s):
     return len(s) <= 3 and chr(0) not in s
 
@@ -107,6 +118,17 @@ def build(tier, seed, exclude):
         T.reach()
         if got != given:
             return T.fail(lambda: "explicit out=%r resolved to %r" % (str(given), got))
+        return True
+    """, timeout=to)
+    # the path is a function of the input values only: ==-equal values of different type, resolved one after the other in one process
+    g.cond("h_equal_values_sequence", "i: int, j: int", ["0 <= i < 9 and 0 <= j < 9"], """
+        a, b = _EQV[T.real(i)], _EQV[T.real(j)]
+        pa, pb = _resolve_any(a), _resolve_any(b)
+        T.reach()
+        for v, p in ((a, pa), (b, pb)):
+            want = "out_%s.txt" % (v,)
+            if p is None or p.name != want:
+                return T.fail(lambda: "template out_{v}.txt with v=%r (after resolving %r in the same process) gives %r, expected %r" % (v, a, p, want))
         return True
     """, timeout=to)
     g.cond("twin_c26", "name: str", ["1 <= len(name) <= 2"], """
